@@ -167,6 +167,10 @@ def corpus_jobs():
         dict(gen="series", unit=ubun, conns=[["name", "x"], ["name", "y"]], nser=1),
         # pinned tree: ... and differently once the unit has been elaborated (flattened ports cloned)
         dict(gen="wrapper", unit=ubun, pre=True),
+        # ... and when the unit was only part of a design whose elaboration failed elsewhere (flattened, never marked elaborated)
+        dict(gen="wrapper", unit=ubun, pre="failed"),
+        dict(gen="series", unit=ubun, conns=[["name", "x"], ["name", "y"]], nser=2, pre="failed"),
+        dict(gen="series", unit=ubun, conns=[["name", "x"], ["name", "y"]], nser=1, pre="failed"),
         dict(gen="series", unit=ubun, conns=[["name", "x"], ["name", "y"]], nser=3, pre=True),
         # pinned tree: a unit port named like the internal bus / the instance array is replaced by it
         dict(gen="series", unit=EXT_UNITS[3], conns=[["name", "a"], ["name", "i"]], nser=3),
